@@ -38,6 +38,8 @@ pub enum DOp {
     NewNode,
     CloneHandle(u16),
     Connect(u16, u16),
+    /// `count` connects in a row (long adjacency lists)
+    ConnectBurst(u16, u16, u16),
     TryConnect(u16, u16),
     /// is_connected / find_outbound / find_inbound (find_adjacent); results dropped at once
     Lookup(u16, u16),
@@ -245,6 +247,18 @@ fn step<F: Flavour>(w: &mut World<F>, op: &DOp, st: &mut Stats, counting: bool) 
                     F::connect(w.node_of(sa).unwrap().0, w.node_of(sb).unwrap().0, 7);
                     w.edges.push((ia, ib));
                     cls(st, if ia == ib { "op.connect-self-loop" } else { "op.connect" });
+                }
+            }
+        }
+        DOp::ConnectBurst(a, b, count) => {
+            if let (Some(sa), Some(sb)) = (w.pick(a, is_node::<F>), w.pick(b, is_node::<F>)) {
+                let (ia, ib) = (w.node_of(sa).unwrap().1, w.node_of(sb).unwrap().1);
+                if w.safe(ia) && w.safe(ib) {
+                    for _ in 0..count {
+                        F::connect(w.node_of(sa).unwrap().0, w.node_of(sb).unwrap().0, 7);
+                        w.edges.push((ia, ib));
+                    }
+                    cls(st, if count >= 256 { "op.connect-burst>=256" } else { "op.connect-burst<256" });
                 }
             }
         }
@@ -554,7 +568,7 @@ pub fn run_case<F: Flavour>(c: &DCase, st: &mut Stats, counting: bool) -> bool {
 pub fn run_all(c: &DCase, st: &mut Stats, counting: bool, only: Option<&str>) -> bool {
     let mut ok = true;
     if counting {
-        let connects = c.ops.iter().filter(|o| matches!(o, DOp::Connect(..))).count();
+        let connects = c.ops.iter().filter(|o| matches!(o, DOp::Connect(..) | DOp::ConnectBurst(..))).count();
         let drops = c.ops.iter().filter(|o| matches!(o, DOp::Drop(_))).count();
         let results = c.ops.iter().any(|o| matches!(o, DOp::Search(..)));
         if connects >= 2 && drops >= 1 && results {
@@ -583,6 +597,7 @@ fn op_strategy() -> impl Strategy<Value = DOp> {
         2 => r().prop_map(DOp::CloneHandle),
         8 => (r(), r()).prop_map(|(a, b)| DOp::Connect(a, b)),
         1 => r().prop_map(|a| DOp::Connect(a, a)),
+        1 => (r(), r(), prop_oneof![Just(9u16), Just(33), Just(130), 250u16..270, Just(520)]).prop_map(|(a, b, c)| DOp::ConnectBurst(a, b, c)),
         1 => (r(), r()).prop_map(|(a, b)| DOp::Disconnect(a, b)),
         3 => (r(), r()).prop_map(|(a, b)| DOp::TryConnect(a, b)),
         4 => (r(), r()).prop_map(|(a, b)| DOp::Lookup(a, b)),
@@ -685,6 +700,61 @@ fn enumerate(st: &mut Stats, wd: &Watchdog, w: usize, workers: usize, max_nodes:
     }
 }
 
+/// two or three nodes, one of them with a long adjacency list (sizes on both sides of the powers of two), closed
+/// into a cycle or a self-loop, one kept result, every drop order
+fn wide_cases(st: &mut Stats, wd: &Watchdog, w: usize, workers: usize, sizes: &[u16]) {
+    let kinds = [ResKind::Path, ResKind::OrderEdges, ResKind::Cycle, ResKind::ToVec];
+    let raw = |k: usize, len: usize| -> u16 { (((k as u32) << 16) / len as u32 + 1).min(65535) as u16 };
+    let mut i = 0usize;
+    for &k in sizes {
+        for close in 0..4 {
+            for kind in kinds {
+                for with_graph in [false, true] {
+                    i += 1;
+                    if i % workers != w {
+                        continue;
+                    }
+                    let n = 3usize;
+                    let mut ops: Vec<DOp> = (0..n).map(|_| DOp::NewNode).collect();
+                    match close {
+                        0 => ops.extend([DOp::ConnectBurst(raw(0, n), raw(1, n), k), DOp::Connect(raw(0, n), raw(0, n))]),
+                        1 => ops.extend([DOp::ConnectBurst(raw(0, n), raw(1, n), k), DOp::Connect(raw(1, n), raw(0, n))]),
+                        2 => ops.extend([DOp::ConnectBurst(raw(0, n), raw(1, n), k / 2), DOp::ConnectBurst(raw(0, n), raw(2, n), k - k / 2), DOp::Connect(raw(2, n), raw(1, n)), DOp::Connect(raw(1, n), raw(0, n))]),
+                        _ => ops.extend([DOp::ConnectBurst(raw(1, n), raw(0, n), k), DOp::ConnectBurst(raw(0, n), raw(1, n), k)]),
+                    }
+                    ops.push(DOp::Lookup(raw(0, n), raw(1, n)));
+                    if with_graph {
+                        ops.push(DOp::GraphNew);
+                        for a in 0..n {
+                            ops.push(DOp::GraphInsert(0, raw(a, n)));
+                        }
+                    }
+                    ops.push(DOp::Search(0, kind));
+                    let objs = n + with_graph as usize + 1;
+                    // all drop orders of <= 5 objects
+                    let mut perms: Vec<Vec<usize>> = vec![vec![]];
+                    for _ in 0..objs {
+                        perms = perms.into_iter().flat_map(|p| (0..objs).filter(|x| !p.contains(x)).map(|x| { let mut q = p.clone(); q.push(x); q }).collect::<Vec<_>>()).collect();
+                    }
+                    for perm in perms {
+                        wd.tick();
+                        let mut remaining: Vec<usize> = (0..objs).collect();
+                        let mut fd = vec![];
+                        for &p in &perm {
+                            let pos = remaining.iter().position(|x| *x == p).unwrap();
+                            fd.push(raw(pos, remaining.len()));
+                            remaining.remove(pos);
+                        }
+                        let case = DCase { ops: ops.clone(), final_drops: fd };
+                        st.class("histories.wide-adjacency-lists");
+                        run_all(&case, st, true, None);
+                    }
+                }
+            }
+        }
+    }
+}
+
 pub fn run(ctx: &mut Ctx) {
     ctx.rule = "cases = histories over held objects (node handles, clones, containers, kept search results: Path, found node, Vec<Node>, Vec<Edge>, cycle, to_vec) with create / clone / connect (incl. self-loops) / disconnect / isolate / container insert, remove, get / search / use / drop of any held object, then a final drop-all in a generated order: (a) enumerated: 1..N nodes wired as {nothing, cycle, self-loops, chain, star, doubled cycle} x one result of each kind x with/without container x EVERY drop order of the held objects; (b) proptest histories. Oracle after every step via drop-counting node values: a node's value is released iff no held object mentions the node, exactly once; kept results stay usable; after the last drop nothing is alive. Dropping the last handle of a still-connected node is generated on purpose; its neighbours are then only given calls that do not dereference peers. Non-trivial = history with >=2 connects, a drop and a kept result; distinct = hash of the history.".into();
     ctx.assumptions = vec!["the library's documented panic when iterating over an edge whose peer was released is outside the statement: such neighbours are marked tainted and excluded from peer-dereferencing calls".into()];
@@ -696,6 +766,7 @@ pub fn run(ctx: &mut Ctx) {
     let enumerated = parallel(workers, |w| {
         let mut st = Stats::new();
         enumerate(&mut st, &wd, w, workers, max_nodes);
+        wide_cases(&mut st, &wd, w, workers, if max_nodes <= 3 { &[17, 65, 255, 256, 257, 300] } else { &[17, 65, 255, 256, 257, 300, 1023, 1025, 2100] });
         st
     });
     let failed = enumerated.has_findings();
